@@ -31,6 +31,7 @@ REQUIRED_COUNTERS = {"quick": {"ext:none": 100, "ext:some": 1000, "meek:oriented
                      "thorough": {"ext:none": 1000, "ext:some": 10000, "meek:oriented-something": 1000,
                                   "rule-alone:1": 1, "rule-alone:2": 1, "rule-alone:3": 1, "rule-alone:4": 1}}
 N = {"quick": 1500, "thorough": 150000}
+NMID = {"quick": 40000, "thorough": 600000}      # random PDAGs on 6-8 nodes (rule-3-type errors first show there, about 1 in 1e4)
 P5 = {"quick": 60000, "thorough": 0}
 
 
@@ -43,6 +44,37 @@ def gen(tier, seed, shard, nshards):
         yield "embedded-pdag", dict(c, P=9 + c["code"] % 5)
     for k, code in enumerate(_gc.sample_pdag5_codes(("C09", seed, "emb"), P5[tier] // 6 + 2000, shard, nshards)):
         yield "embedded-pdag", {"p": 5, "code": code, "P": 9 + code % 5}
+    t = 0
+    for p in range(5, 11):
+        for variant in range(4):
+            for rep in range(3):
+                if t % nshards == shard:
+                    yield "propagation-pdag", {"p": p, "variant": variant, "rep": rep}
+                t += 1
+    for k in range(NMID[tier]):
+        if k % nshards == shard:
+            if k % 2:
+                yield "sampled-pdag", {"masks": _gc.sampled_pdag(("C09", seed, "mid", k), 6, 8, max_und=9, max_edges=14)}
+            else:
+                # dense mixed graphs on 6-7 nodes: directed edges along a random order (acyclic), many undirected ones
+                rng = util.rng_for("C09", seed, "dense", k)
+                p_ = 6 + (k // 2) % 2
+                order = [int(v) for v in rng.permutation(p_)]
+                dens, pu = rng.uniform(0.6, 1.0), rng.uniform(0.2, 0.6)
+                out, nund = [0] * p_, 0
+                for a in range(p_):
+                    for b in range(a + 1, p_):
+                        if rng.random() < dens:
+                            out[order[a]] |= 1 << order[b]
+                            if nund < 10 and rng.random() < pu:
+                                out[order[b]] |= 1 << order[a]
+                                nund += 1
+                yield "sampled-pdag", {"masks": out}
+    for k in range(800 if tier == "quick" else 20000):
+        if k % nshards == shard:
+            rp = _gc.ring_pdag(("C09", seed, "ring", k))
+            if G.directed_part_acyclic(rp):
+                yield "sampled-pdag", {"masks": rp}
     for k in range(N[tier]):
         if k % nshards == shard:
             yield "sampled-pdag", {"masks": _gc.sampled_pdag(("C09", seed, "sp", k), 6, 12, max_und=9, max_edges=12)}
@@ -79,6 +111,38 @@ def judge(family, case, rec):
     if family == "pdag":
         out = G.pdag_from_code(case["p"], case["code"])
         key = (case["p"], case["code"])
+    elif family == "propagation-pdag":
+        # a directed edge (or a v-structure) at one end of a long undirected path / tree: the orientation has to travel
+        p_, v = case["p"], case["variant"]
+        out = [0] * p_
+
+        def und(a, b):
+            out[a] |= 1 << b
+            out[b] |= 1 << a
+        if v == 0:        # 0 -> 1 - 2 - 3 - ... - (p-1)
+            out[0] |= 1 << 1
+            for i in range(1, p_ - 1):
+                und(i, i + 1)
+        elif v == 1:      # 0 -> 2 <- 1,  2 - 3 - ... - (p-1)
+            out[0] |= 1 << 2
+            out[1] |= 1 << 2
+            for i in range(2, p_ - 1):
+                und(i, i + 1)
+        elif v == 2:      # 0 -> 1, then an undirected binary tree hanging from 1
+            out[0] |= 1 << 1
+            for i in range(2, p_):
+                und(i, max(1, i // 2))
+        else:             # undirected path with the directed edge in the middle pointing to one side
+            m = p_ // 2
+            out[m] |= 1 << (m + 1)
+            for i in range(0, m):
+                und(i, i + 1)
+            for i in range(m + 1, p_ - 1):
+                und(i, i + 1)
+        if case["rep"]:
+            out = gmat.relabel(out, util.rng_for("C09prop", p_, v, case["rep"]))
+        key = ("prop", p_, v, case["rep"])
+        rec.count("propagation-pdags")
     elif family == "embedded-pdag":
         small = G.pdag_from_code(case["p"], case["code"])
         if not G.directed_part_acyclic(small) or G.n_edges(small) < 2:
